@@ -46,6 +46,7 @@ type VerifProdBatch struct {
 	Values        [][]byte
 	Keys          [][]byte
 	HeaderCounts  []int
+	HeaderKeys    [][]string
 	ProducerID    int64
 	ProducerEpoch int16
 	FirstSequence int32
@@ -63,6 +64,7 @@ func VerifProdRequestBatches(req *ProduceRequest) []VerifProdBatch {
 					vb.Keys = append(vb.Keys, mb.Msg.Key)
 					vb.Values = append(vb.Values, mb.Msg.Value)
 					vb.HeaderCounts = append(vb.HeaderCounts, 0)
+					vb.HeaderKeys = append(vb.HeaderKeys, nil)
 				}
 			}
 			if recs.RecordBatch != nil {
@@ -73,6 +75,11 @@ func VerifProdRequestBatches(req *ProduceRequest) []VerifProdBatch {
 					vb.Keys = append(vb.Keys, r.Key)
 					vb.Values = append(vb.Values, r.Value)
 					vb.HeaderCounts = append(vb.HeaderCounts, len(r.Headers))
+					var hk []string
+					for _, h := range r.Headers {
+						hk = append(hk, string(h.Key))
+					}
+					vb.HeaderKeys = append(vb.HeaderKeys, hk)
 				}
 			}
 			out = append(out, vb)
